@@ -46,8 +46,16 @@ class Run:
         self.kf = common.load_known_findings()
 
     # ---------------------------------------------------------------- proof side
-    def prove(self, module, theorem_names, extra_targets=()):
-        """Builds theories/<module>.vo (and deps) and checks Print Assumptions of the theorems."""
+    def prove(self, module, theorem_names, extra_targets=(), strengthening=False):
+        """Builds theories/<module>.vo (and deps) and checks Print Assumptions of the theorems.
+
+        strengthening=True: theorems that tie the property to the source by TRANSLATION in addition to the tie by
+        correspondence that decides the check (both ties are allowed; the translated-source theorems are stated about
+        the Rust source as it is now, so any rewrite of that source, harmless or not, can break their proofs). When they
+        do not build, the property is still decided by the core theorems + correspondence; the failure is recorded in
+        the evidence (coverage.translated_source_tie) and the caller deepens its correspondence run."""
+        if strengthening:
+            return self._prove_strengthening(module, theorem_names)
         targets = ["theories/%s.vo" % module] + list(extra_targets)
         ok, out, secs = common.coq_make(targets)
         self.obligations += len(theorem_names)
@@ -75,6 +83,28 @@ class Run:
                 allok = False
                 self.proof_errors.append("theorem %s.%s: assumptions not closed: %s" % (module, n, a))
         return allok
+
+    def _prove_strengthening(self, module, theorem_names):
+        info = {"module": module, "theorems": list(theorem_names), "established": False}
+        self.extra_cov.setdefault("translated_source_tie", []).append(info)
+        ok, out, secs = common.coq_make(["theories/%s.vo" % module])
+        if not ok:
+            info["error"] = _first_coq_error(out)[:600]
+            self.notes.append("theorems about the translated source (%s) are NOT established for this revision of the source: %s"
+                              % (module, info["error"][:300]))
+            return False
+        res = coq_assumptions(module, theorem_names)
+        bad = [n for n in theorem_names if "Closed under the global context" not in (res.get(n) or "")]
+        if bad:
+            info["error"] = "assumptions not closed: %s" % bad
+            self.proof_errors.append("theorem(s) %s of %s depend on assumptions: %s" % (bad, module, [res.get(n) for n in bad]))
+            return False
+        info["established"] = True
+        for n in theorem_names:
+            self.theorems.append({"module": module, "name": n, "ok": True, "assumptions": res.get(n)})
+        self.obligations += len(theorem_names)
+        self.discharged += len(theorem_names)
+        return True
 
     def hygiene(self):
         bad = common.coq_hygiene()
